@@ -77,6 +77,7 @@ type YOpts struct {
 	Comments  bool `json:"comments,omitempty"`   // sprinkle comments and blank lines
 	SeqIndent bool `json:"seq_indent,omitempty"` // indent "- " under its key
 	Header    bool `json:"header,omitempty"`     // emit the "#%Validation Profile 1.0" first line
+	Literal   bool `json:"literal,omitempty"`    // print string values of block mappings as literal block scalars (|-) where that denotes the same string
 }
 
 // Print renders the tree.
@@ -203,8 +204,74 @@ func (p *yprinter) value(v *Y, col int) {
 			p.block(v, col)
 		}
 	default:
+		if v.Kind == "str" && p.o.Literal {
+			if body, chomp, ok := blockScalarParts(v.S); ok {
+				p.n++
+				switch p.n % 4 {
+				case 0: // literal: every line break is content
+					p.sb.WriteString(" |" + chomp + "\n")
+					for _, line := range strings.Split(body, "\n") {
+						if line == "" {
+							p.sb.WriteString("\n")
+						} else {
+							p.sb.WriteString(p.pad(col+p.o.Indent) + line + "\n")
+						}
+					}
+					return
+				case 1: // folded: a single line break between two non-blank lines is a space
+					if !strings.Contains(body, "\n") {
+						p.sb.WriteString(" >" + chomp + "\n")
+						for _, line := range foldAtSpaces(body) {
+							p.sb.WriteString(p.pad(col+p.o.Indent) + line + "\n")
+						}
+						return
+					}
+				}
+			}
+		}
 		p.sb.WriteString(" " + p.scalar(v, false) + "\n")
 	}
+}
+
+// blockScalarParts splits a string into the body of a block scalar and its chomping indicator ("-" when the
+// string has no final line break, "" when it has exactly one), or reports that the string cannot be written
+// as a block scalar without an indentation indicator.
+func blockScalarParts(s string) (body, chomp string, ok bool) {
+	body, chomp = s, "-"
+	if strings.HasSuffix(s, "\n") {
+		body, chomp = s[:len(s)-1], ""
+	}
+	if body == "" || strings.HasSuffix(body, "\n") || strings.HasPrefix(body, "\n") {
+		return "", "", false
+	}
+	for _, line := range strings.Split(body, "\n") {
+		if strings.HasPrefix(line, " ") || strings.HasSuffix(line, " ") || strings.HasPrefix(line, "\t") {
+			return "", "", false
+		}
+	}
+	for _, r := range body {
+		if r == '\t' || r == '\r' || (r < 0x20 && r != '\n') || r == 0x7f || r == 0x85 || r == 0x2028 || r == 0x2029 || r == 0xfeff {
+			return "", "", false
+		}
+	}
+	return body, chomp, true
+}
+
+// foldAtSpaces breaks a one-line body at every second isolated space: a folded scalar joins the pieces
+// with a single space again.
+func foldAtSpaces(body string) []string {
+	var lines []string
+	start, seen := 0, 0
+	for i := 1; i+1 < len(body); i++ {
+		if body[i] == ' ' && body[i-1] != ' ' && body[i+1] != ' ' {
+			seen++
+			if seen%2 == 0 {
+				lines = append(lines, body[start:i])
+				start = i + 1
+			}
+		}
+	}
+	return append(lines, body[start:])
 }
 
 func (p *yprinter) key(k string, inFlow bool) string {
